@@ -58,6 +58,32 @@ theorem C06_base_only (base : List (Nat × Rat)) (p : Nat) (hp : p ≠ 90 ∧ p 
   simp only [List.flatMap_nil, List.nil_append]
   rfl
 
+/-- **Weaknesses are the union**: a unit is weak to a type exactly when the unit itself or one of its
+attached instances marks it weak; an entry that says "not weak" never removes a weakness, so the
+result does not depend on attachment order, and detaching an instance removes exactly what only it
+contributed. -/
+theorem C06_weakness_union (base : List (Nat × Bool)) (l : List (Inst Rat)) (t : Nat) :
+    (weakTo base l t = true ↔ (t, true) ∈ base ∨ ∃ i ∈ l, (t, true) ∈ i.weak) ∧
+    (∀ l₂ : List (Inst Rat), l.Perm l₂ → weakTo base l₂ t = weakTo base l t) ∧
+    (∀ i : Inst Rat, (t, true) ∉ i.weak → weakTo base (i :: l) t = weakTo base l t) ∧
+    (∀ i : Inst Rat, (t, false) ∈ i.weak → weakTo base l t = true → weakTo base (l ++ [i]) t = true) := by
+  refine ⟨?_, ?_, ?_, ?_⟩
+  · simp [weakTo, List.any_eq_true]
+  · intro l₂ h
+    have : ∀ (a b : List (Inst Rat)), a.Perm b → (a.any fun i => i.weak.contains (t, true)) = (b.any fun i => i.weak.contains (t, true)) := by
+      intro a b hab
+      rw [Bool.eq_iff_iff]
+      simp only [List.any_eq_true]
+      exact ⟨fun ⟨x, hx, h'⟩ => ⟨x, hab.mem_iff.1 hx, h'⟩, fun ⟨x, hx, h'⟩ => ⟨x, hab.mem_iff.2 hx, h'⟩⟩
+    simp only [weakTo, this l₂ l h.symm]
+  · intro i hi
+    simp [weakTo, hi]
+  · intro i _ h
+    simp only [weakTo, List.any_append, Bool.or_eq_true] at h ⊢
+    rcases h with h | h
+    · exact Or.inl h
+    · exact Or.inr (Or.inl h)
+
 end Modifier
 
 namespace Heap
